@@ -39,7 +39,7 @@ Print Assumptions C22_desc_is_rev_asc_column_partial.
 
 Theorem C22_desc_lift : forall d q,
   q_limit q = 0%nat -> q_offset q = 0%nat -> q_slimit q = 0%nat -> q_soffset q = 0%nat ->
-  (forall k, series_rows spec_mode (set_desc q true) d k = rev (series_rows spec_mode (set_desc q false) d k)) ->
+  (forall k, series_rows spec_mode (schema d) (set_desc q true) d k = rev (series_rows spec_mode (schema d) (set_desc q false) d k)) ->
   eval d (set_desc q true) = rev_result (eval d (set_desc q false)).
 Proof. exact desc_lift. Qed.
 Print Assumptions C22_desc_lift.
@@ -87,11 +87,30 @@ Theorem C22_fill_none_subset_of_fill_null_count : forall e cs,
 Proof. exact fill_none_subset_null_count. Qed.
 Print Assumptions C22_fill_none_subset_of_fill_null_count.
 
-(** 5. The WHERE time bounds commute with every other part of the query: evaluating over the
-    points inside the bounds gives the same result. *)
-Theorem C22_where_time_commutes_with_filter : forall d q, eval (time_filter q d) q = eval d q.
+(** 5. The WHERE time bounds commute with every other part of the query.
+    Full statement: [forall d q, eval (time_filter q d) q = eval d q].  The faithful evaluator
+    REFUTES it: points outside the bounds still contribute the measurement's SCHEMA (a field that
+    only out-of-range points carry exists, so sum/min/max/first/last on it are typed columns and
+    get fill(<value>); once those points are removed the field does not exist and the column is
+    null).  The real engine behaves the same way (driver corpus: schema cases), so this is the
+    defined behaviour and no finding.  Proved: the law for a fixed schema, and the law for [eval]
+    whenever removing the out-of-range points does not change the schema. *)
+Theorem C22_where_time_commutes_fixed_schema : forall kn d q,
+  evalk spec_mode kn 0 (time_filter q d) q = evalk spec_mode kn 0 d q.
+Proof. exact where_time_commutes_schema. Qed.
+Print Assumptions C22_where_time_commutes_fixed_schema.
+
+Theorem C22_where_time_commutes_with_filter_partial : forall d q,
+  (forall f, schema (time_filter q d) f = schema d f) -> eval (time_filter q d) q = eval d q.
 Proof. exact where_time_commutes. Qed.
-Print Assumptions C22_where_time_commutes_with_filter.
+Print Assumptions C22_where_time_commutes_with_filter_partial.
+
+Theorem C22_where_time_commutes_with_filter_refuted : exists d q, eval (time_filter q d) q <> eval d q.
+Proof.
+  eexists. eexists. destruct where_time_schema_needed as [H1 H2]. cbv zeta in H1, H2.
+  rewrite H1, H2. discriminate.
+Qed.
+Print Assumptions C22_where_time_commutes_with_filter_refuted.
 
 (** 6. An aggregate/selector over a tag set is the aggregate over the union of the points of its
     member series, in whatever order (series, shards) they are met. *)
